@@ -17,7 +17,7 @@ import (
 var blockMutations = []string{
 	"chainid", "height", "time+1ns", "time-1ns", "time-prev", "lastblockid", "lastcommithash", "datahash",
 	"valhash", "nextvalhash", "conshash", "apphash", "resultshash", "evidencehash", "proposer-unknown",
-	"proposer-other", "version", "commit-badsig", "commit-dropquorum", "commit-round", "commit-forged-nil",
+	"proposer-other", "version", "commit-badsig", "commit-dropquorum", "commit-round", "commit-forged-nil", "commit-nil-padded",
 }
 
 var validMutations = map[string]bool{"proposer-other": true}
@@ -32,7 +32,10 @@ func flip(b []byte) []byte {
 }
 
 // mutateBlock applies the perturbation in place; false if it does not apply to this block.
-func mutateBlock(b *types.Block, mut string, st sm.State, salt int) bool {
+//
+// sign returns a signature of the validator with that address over msg, or nil if the simulator
+// does not hold its key (only Byzantine validators' keys are held).
+func mutateBlock(b *types.Block, mut string, st sm.State, salt int, chainID string, sign func(types.Address, []byte) []byte) bool {
 	first := b.Height == st.InitialHeight
 	switch mut {
 	case "chainid":
@@ -83,7 +86,7 @@ func mutateBlock(b *types.Block, mut string, st sm.State, salt int) bool {
 		}
 	case "version":
 		b.Version.Block++
-	case "commit-badsig", "commit-dropquorum", "commit-round", "commit-forged-nil":
+	case "commit-badsig", "commit-dropquorum", "commit-round", "commit-forged-nil", "commit-nil-padded":
 		if first || b.LastCommit == nil || len(b.LastCommit.Signatures) == 0 {
 			return false
 		}
@@ -125,6 +128,44 @@ func mutateBlock(b *types.Block, mut string, st sm.State, salt int) bool {
 			}
 		case "commit-round":
 			round++
+		case "commit-nil-padded":
+			// genuine precommits FOR NIL of the validators whose keys the adversary holds, and so
+			// many for-block signers dropped that at most 2/3 of the power signed the block while
+			// more than 2/3 "signed something": not a commit for the block
+			total := st.LastValidators.TotalVotingPower()
+			padded := false
+			for i, v := range st.LastValidators.Validators {
+				c := types.NewCommit(b.LastCommit.Height, round, b.LastCommit.BlockID, sigs)
+				cand := types.CommitSig{BlockIDFlag: types.BlockIDFlagNil, ValidatorAddress: v.Address, Timestamp: b.Time.Add(-time.Millisecond)}
+				keep := c.Signatures[i]
+				c.Signatures[i] = cand
+				sg := sign(v.Address, c.VoteSignBytes(chainID, int32(i)))
+				c.Signatures[i] = keep
+				if sg == nil {
+					continue
+				}
+				cand.Signature = sg
+				sigs[i] = cand
+				padded = true
+			}
+			if !padded {
+				return false
+			}
+			var have int64
+			for i, s := range sigs {
+				if s.ForBlock() {
+					have += st.LastValidators.Validators[i].VotingPower
+				}
+			}
+			for i, s := range sigs {
+				if have*3 <= total*2 {
+					break
+				}
+				if s.ForBlock() {
+					have -= st.LastValidators.Validators[i].VotingPower
+					sigs[i] = types.NewCommitSigAbsent()
+				}
+			}
 		case "commit-forged-nil":
 			// a made-up "validator k precommitted nil" entry with a garbage signature: replaces
 			// an absent or nil entry, or a for-block entry that the quorum can spare
@@ -160,6 +201,13 @@ func mutateBlock(b *types.Block, mut string, st sm.State, salt int) bool {
 		}
 		b.LastCommit = types.NewCommit(b.LastCommit.Height, round, b.LastCommit.BlockID, sigs)
 		b.LastCommitHash = nil
+		if mut == "commit-nil-padded" {
+			// keep the rest of the header consistent with the commit it carries, so that the commit
+			// is the only thing wrong with the block
+			if t := sm.MedianTime(b.LastCommit, st.LastValidators); t.After(st.LastBlockTime) {
+				b.Time = t
+			}
+		}
 		b.Hash() // refill
 	default:
 		return false
